@@ -34,6 +34,11 @@ class Fam:
                            ("/inner/x", "bool"), ("/inner/name", "hstr64"), ("/v", "u8")]
             self.val = {"/a": 0, "/opt": None, "/arr/0": 0, "/arr/1": 0, "/arr/2": 0, "/inner/x": False,
                         "/inner/name": "", "/v": 0}
+        elif fam == 3:
+            self.leaves = [(f"/lut/{i}", "u8") for i in range(12)] + [("/trip", "arr3i16"), ("/text", "hstr256"), ("/k", "u8")]
+            self.val = {p: 0 for p, _ in self.leaves}
+            self.val["/trip"] = [0, 0, 0]
+            self.val["/text"] = ""
         else:
             self.leaves = [(f"/l{i}", "u8") for i in range(6)]
             self.val = {p: 0 for p, _ in self.leaves}
@@ -54,6 +59,9 @@ class Fam:
                     f"{a0} A 3 L l:u16 i0 L l:u16 i0 L l:u16 i0 "
                     f"{a0} N 0 - n:x,name 2 {a0} L l:bool b0 {a0} L l:hstr64 se "
                     f"a:1:-:-:-:-:0:0:1 L l:u8 i0")
+        if self.fam == 3:
+            return (f"N 0 - n:lut,trip,text,k 4 {a0} A 12 " + " ".join("L l:u8 i0" for _ in range(12)) +
+                    f" {a0} L l:arr3i16 A(i0,i0,i0) {a0} L l:hstr256 se {a0} L l:u8 i0")
         return "N 0 - n:l0,l1,l2,l3,l4,l5 6 " + " ".join(f"{a0} L l:u8 i0" for _ in range(6))
 
     def norm(self, path):
@@ -108,6 +116,8 @@ class Fam:
             return "true" if v else "false"
         if isinstance(v, str):
             return '"' + v + '"'
+        if isinstance(v, list):
+            return "[" + ",".join(str(x) for x in v) + "]"
         return str(v)
 
     def set(self, path, text):
@@ -138,9 +148,15 @@ class Fam:
                 v, clean = False, t[5:].strip(" \n\t\r") == ""
             else:
                 return ("inner", depth)
+        elif ty == "arr3i16":
+            # all or nothing: three in-range integers, otherwise the leaf keeps its value
+            m = re.match(r"\[\s*(-?(?:0|[1-9][0-9]*))\s*,\s*(-?(?:0|[1-9][0-9]*))\s*,\s*(-?(?:0|[1-9][0-9]*))\s*\]", t)
+            if not m or not all(-32768 <= int(x) <= 32767 for x in m.groups()):
+                return ("inner", depth)
+            v, clean = [int(x) for x in m.groups()], t[m.end():].strip(" \n\t\r") == ""
         else:
             m = re.match(r'"([^"\\]*)"', t)
-            if not m or len(m.group(1).encode()) > 64:
+            if not m or len(m.group(1).encode()) > (256 if ty == "hstr256" else 64):
                 return ("inner", depth)
             v, clean = m.group(1), t[m.end():].strip(" \n\t\r") == ""
         self.val[p] = v
